@@ -1,6 +1,7 @@
 package main
 
 import (
+	"flag"
 	"fmt"
 	"regexp"
 	"runtime/debug"
@@ -9,6 +10,7 @@ import (
 	"k8s.io/client-go/kubernetes"
 	kubefake "k8s.io/client-go/kubernetes/fake"
 	"k8s.io/client-go/tools/cache"
+	"tkestack.io/galaxy/pkg/api/k8s"
 	"tkestack.io/galaxy/pkg/policy"
 	"tkestack.io/galaxy/pkg/utils/ipset"
 	utiliptables "tkestack.io/galaxy/pkg/utils/iptables"
@@ -66,6 +68,9 @@ type env struct {
 	// runner (ipset.New / iptables.New) over a fake exec that interprets the command lines against the same stores
 	execMode string
 	x        *fakes.Exec
+	// hostOverride: the daemon was started with --hostname-override=Node-A; the node name is then whatever
+	// k8s.GetHostname() makes of it, exactly as in policy.New
+	hostOverride bool
 }
 
 // The errors an exec-backed handle returns when the tool itself fails (nothing reaches the kernel).
@@ -74,10 +79,27 @@ const (
 	iptablesToolError = "exit status 4 (Another app is currently holding the xtables lock. Perhaps you want to use the -w option?)"
 )
 
-func newEnv(w *world) *env { return newEnvMode(w, "") }
+func newEnv(w *world) *env { return newEnvFull(w, "", false) }
 
-func newEnvMode(w *world, execMode string) *env {
-	e := &env{sets: fakes.NewIPSet(), w: w, execMode: execMode}
+func newEnvMode(w *world, execMode string) *env { return newEnvFull(w, execMode, false) }
+
+// overrideValue is what an operator passes as --hostname-override on a node kubelet registers as hostName (kubelet
+// lower-cases its override; pods carry the lower-case name in spec.nodeName).
+const overrideValue = "Node-A"
+
+// enter puts the process-global daemon configuration (the --hostname-override flag k8s.GetHostname reads) into the
+// state this env's manager runs under. Cases run one after the other inside a process and every galaxy entry point
+// returns only after its goroutines have finished, so nothing reads the flag while it is written.
+func (e *env) enter() {
+	v := ""
+	if e.hostOverride {
+		v = overrideValue
+	}
+	_ = flag.Set("hostname-override", v)
+}
+
+func newEnvFull(w *world, execMode string, hostOverride bool) *env {
+	e := &env{sets: fakes.NewIPSet(), w: w, execMode: execMode, hostOverride: hostOverride}
 	e.ipt = fakes.NewIPTables(e.sets)
 	e.x = fakes.NewExec(e.sets, e.ipt)
 	e.sets.FailHook = func(op string) error {
@@ -115,7 +137,8 @@ func (e *env) restart() {
 	case "iptables":
 		ipt = utiliptables.New(e.x, utiliptables.ProtocolIpv4)
 	}
-	e.pm = policy.VerifNew(sharedClient, sets, ipt, hostName, e.w.pods, e.w.nss, e.w.pols)
+	e.enter()
+	e.pm = policy.VerifNew(sharedClient, sets, ipt, k8s.GetHostname(), e.w.pods, e.w.nss, e.w.pols)
 }
 
 // execReport adds the interpreter's counters; it returns the first command line the interpreter did not understand.
@@ -176,7 +199,10 @@ func trimStack(st string) string {
 	return strings.Join(keep, " | ")
 }
 
-func (e *env) fullSync() *panicInfo { return guarded(func() { e.pm.VerifFullSync() }) }
+func (e *env) fullSync() *panicInfo {
+	e.enter()
+	return guarded(func() { e.pm.VerifFullSync() })
+}
 
 // rejects drains both reject logs.
 func (e *env) takeRejects() []fakes.Reject {
